@@ -721,7 +721,18 @@ func c02History(r *RunCtx, run int) error {
 			return fmt.Errorf("C02: InitProvider: %s", res.Err)
 		}
 	}
-	if res := e.Run(&storagetypes.MsgPostFile{Creator: owner.String(), Merkle: f.root, FileSize: size, ProofType: 0, MaxProofs: int64(2 + p.Intn(2)), Note: "{}"}); res.Out != OutOk {
+	// the proof type is a free field of the message (the chain knows one kind of proof and stores the number as sent),
+	// and the holder may sign with the upper-case spelling of its address: neither may cost an honest holder anything
+	proofType := int64(0)
+	if run%4 == 2 {
+		proofType = PickOne(p, []int64{1, -1, 7, 1 << 40})
+	}
+	honestS := honest.String()
+	if run%5 == 4 {
+		honestS = strings.ToUpper(honestS)
+	}
+	r.Hist("setup", fmt.Sprintf("proof_type_zero=%v/holder_upper_case=%v", proofType == 0, honestS != honest.String()))
+	if res := e.Run(&storagetypes.MsgPostFile{Creator: owner.String(), Merkle: f.root, FileSize: size, ProofType: proofType, MaxProofs: int64(2 + p.Intn(2)), Note: "{}"}); res.Out != OutOk {
 		return fmt.Errorf("C02: PostFile: %s", res.Err)
 	}
 	// a retry of the post inside its own block, after a holder has already picked the file up: the replacement is a
@@ -729,9 +740,9 @@ func c02History(r *RunCtx, run int) error {
 	// what must not happen is a file that lists a holder the chain holds no record for
 	if run == 3 || p.Chance(1, 4) {
 		if item, payload, err := f.honestProof(0); err == nil {
-			res := e.Run(&storagetypes.MsgPostProof{Creator: honest.String(), Item: item, HashList: payload, Merkle: f.root, Owner: owner.String(), Start: start, ToProve: 0})
+			res := e.Run(&storagetypes.MsgPostProof{Creator: honestS, Item: item, HashList: payload, Merkle: f.root, Owner: owner.String(), Start: start, ToProve: 0})
 			r.Hist("setup", "proof before the retried post: "+res.Out)
-			res = e.Run(&storagetypes.MsgPostFile{Creator: owner.String(), Merkle: f.root, FileSize: size, ProofType: 0, MaxProofs: 3, Note: "{}"})
+			res = e.Run(&storagetypes.MsgPostFile{Creator: owner.String(), Merkle: f.root, FileSize: size, ProofType: proofType, MaxProofs: 3, Note: "{}"})
 			r.Hist("setup", "retried post in the same block: "+res.Out)
 		}
 	}
@@ -825,12 +836,12 @@ func c02History(r *RunCtx, run int) error {
 			hh.fileGone = true
 			break
 		}
-		preH, preL := hh.observe(honest.String()), hh.observe(lazy.String())
+		preH, preL := hh.observe(honestS), hh.observe(lazy.String())
 		if pn := Guard(func() { e.App.StorageKeeper.RunRewardBlock(e.Ctx) }); pn != "" {
 			c02Finding(r, "C02/reward/panic", "RunRewardBlock panicked: "+pn, hh.replay())
 			break
 		}
-		postH, postL := hh.observe(honest.String()), hh.observe(lazy.String())
+		postH, postL := hh.observe(honestS), hh.observe(lazy.String())
 		runs := h%curCW == 0
 		if runs || p.Chance(1, 10) {
 			desc := hh.log("RewardBlock", h, map[string]interface{}{"check_window": curCW, "runs": runs, "honest_pre": preH, "honest_post": postH, "lazy_pre": preL, "lazy_post": postL})
@@ -869,7 +880,7 @@ func c02History(r *RunCtx, run int) error {
 		}
 		// ---- transactions of the block
 		if plan[h] {
-			hh.prove(honest.String(), true, 0)
+			hh.prove(honestS, true, 0)
 			joined = true
 		}
 		for _, nb := range neigh { // the neighbours' holders: first height of every window of their own file
